@@ -150,12 +150,10 @@ func NewPointsUniverse(n, min, max int, dups ...int) *Universe {
 			}
 		}
 	}
-	pstep := 0.5
-	if quickTier {
-		pstep = 1
-	}
-	for x := -1.0; x <= 4; x += pstep {
-		for y := -2.0; y <= 2; y += 0.5 {
+	// (an asymmetric grid: x in steps of 0.5, y in steps of 0.7 from -2, so that a
+	// query point is hardly ever equidistant from a row and its neighbours)
+	for x := -1.0; x <= 4; x += 0.5 {
+		for y := -2.0; y <= 2.3; y += 0.7 {
 			u.QPoints = append(u.QPoints, geom.Point{X: x, Y: y})
 		}
 	}
